@@ -231,7 +231,7 @@ impl Params {
             }
             _ => {}
         }
-        Params { prop: prop.to_string(), ops: 150, max_depth: 6, thick: true, frame: true, small: cfg!(miri), fault_prob: 0, w, wtop, samples: 2 }
+        Params { prop: prop.to_string(), ops: 150, max_depth: 6, thick: true, frame: !cfg!(miri), small: cfg!(miri), fault_prob: 0, w, wtop, samples: 2 }
     }
 }
 
